@@ -19,6 +19,7 @@ import (
 	"math/big"
 	"math/rand"
 	"net"
+	"net/http"
 	"os"
 	"path/filepath"
 	"reflect"
@@ -75,6 +76,10 @@ type c18In struct {
 	Callback   c18Tok `json:"callback,omitempty"`
 	Tickets    bool   `json:"tickets_disabled,omitempty"`
 	Cache      c18Tok `json:"cache,omitempty"`
+	// Via: the entry point the options go through: 0 = TLSClientAuth, 1 = TLSTransport, 2 = TLSClient. For 1 and 2 the
+	// configuration observed is the one the returned transport will use (its TLSClientConfig; the zero configuration when
+	// that is nil, which is what net/http then uses).
+	Via int `json:"via,omitempty"`
 }
 
 // c18Tok: which of several distinct values an option carries (0 = unset). 1 is written `true` in JSON (the form older
@@ -553,7 +558,8 @@ func c18Valid(in c18In) bool {
 	}
 	return ok(in.CertFile, 0, 1, 2, 3, 4, 5, 6, 100, 101) && ok(in.LoadedCert, 0, 1, 2, 3, 4) && ok(in.KeyFile, 0, 1, 2, 3, 4, 7, 100, 101) &&
 		ok(in.LoadedKey, 0, 1, 2, 3, 4, 5, 6, 7) && ok(in.CAFile, 0, 1, 2, 3, 100, 101) &&
-		ok(int(in.LoadedCA), 0, 1, 2) && ok(int(in.Pool), 0, 1, 2, 3) && ok(int(in.Callback), 0, 1, 2) && ok(int(in.Cache), 0, 1, 2)
+		ok(int(in.LoadedCA), 0, 1, 2) && ok(int(in.Pool), 0, 1, 2, 3) && ok(int(in.Callback), 0, 1, 2) && ok(int(in.Cache), 0, 1, 2) &&
+		ok(in.Via, 0, 1, 2)
 }
 
 type c18 struct{}
@@ -575,6 +581,8 @@ func (c18) Rule() string {
 		"(4) certificate files holding a chain: leaf + 1 and leaf + 2 intermediates with the matching / a mismatched / no key, intermediate-first order, next to a loaded pair, and the chain's leaf loaded alone; the full list of DER blocks of Certificates[0] is compared with the blocks of the file. " +
 		"HISTORIES (2-4 calls in one process on the same three file paths, the harness changing what sits behind the paths between the calls): (A) CA file rotated in place / replaced by PEM-free bytes / removed / restored, every ordered pair of 5 contents and every triple of 4, " +
 		"(B) certificate + key files: every ordered pair a,b and triple a,b,a of 8 contents (RSA pair, EC pair, chain +1, chain +2, mismatched, certificate removed, key removed, PEM-free certificate), (C) the root option consulted switches between the calls, repeated content, everything at once; " +
+		"(5) the entry points TLSTransport and TLSClient (input field via = 1, 2; one random case in three): {no, file, loaded, mismatched loaded identity, key only} x CA file x loaded CA x pool x server name x insecure x every callback / tickets / cache combination, " +
+		"including no option at all and pass-through options alone; the configuration observed is the TLSClientConfig of the returned *http.Transport (the zero configuration when nil; a transport that is the shared http.DefaultTransport counts as not-rest-zero). " +
 		"one random case in four is a random history. Every call is compared with the single-call model on the content of its moment, and configurations retained from earlier calls are projected again (and used for handshakes) after the last call. Non-trivial: at least one option set."
 }
 
@@ -697,6 +705,18 @@ func (c18) Enumerate(tier string) []any {
 	out = c18Product(c18Dims{caFiles: []int{0, 1}, loadedCAs: []c18Tok{0, 1}, pools: []c18Tok{0}, names: []string{"", c18Dial}, insecure: bools,
 		pass: []c18Pass{{0, false, 0}, {2, true, 2}}},
 		[]c18ID{{4, 0, 7, 0}, {5, 0, 7, 0}, {6, 0, 7, 0}, {4, 0, 1, 0}, {4, 0, 0, 0}, {5, 1, 7, 1}, {0, 4, 0, 7}, {0, 4, 0, 2}, {1, 0, 7, 0}}, out, seen)
+	// 5. the other two entry points (TLSTransport, TLSClient): the configuration their transport uses is the one of the options,
+	//    whatever subset of the options is set (nothing at all, pass-through options alone, roots alone, ...)
+	var direct []any
+	direct = c18Product(c18Dims{caFiles: []int{0, 1}, loadedCAs: []c18Tok{0, 1}, pools: []c18Tok{0, 2}, names: []string{"", c18Dial}, insecure: bools,
+		pass: c18PassAll([]c18Tok{0, 1, 2})}, []c18ID{{0, 0, 0, 0}, {1, 0, 1, 0}, {0, 2, 0, 2}, {0, 1, 0, 4}, {0, 0, 1, 0}}, direct, map[c18In]bool{})
+	for _, via := range []int{1, 2} {
+		for _, d := range direct {
+			in := d.(c18In)
+			in.Via = via
+			out = append(out, in)
+		}
+	}
 	out = append(out, c18EnumHist(tier)...)
 	if tier == "thorough" {
 		out = c18Product(c18Dims{certFiles: []int{0, 1, 2, 3, 100, 101}, loadedCerts: []int{0, 1, 2, 3}, keyFiles: []int{0, 1, 2, 3, 4, 100, 101},
@@ -820,6 +840,7 @@ func c18GenHist(r *rand.Rand) c18HistIn {
 				st.CertFile, st.KeyFile = 0, 0
 			}
 		}
+		st.Via = pick(0, 0, 1, 2)
 		h.Hist = append(h.Hist, st)
 	}
 	return h
@@ -903,6 +924,9 @@ func (c18) Gen(r *rand.Rand, tier string, i int) any {
 		in.ServerName = c18Dial
 	default:
 		in.ServerName = c18GenName(r)
+	}
+	if r.Intn(3) == 0 {
+		in.Via = 1 + r.Intn(2)
 	}
 	return in
 }
@@ -1168,7 +1192,42 @@ func (m *c18Mat) runStep(in c18In, hp *c18HistPaths) (c18Obs, *tls.Config) {
 
 	var cfg *tls.Config
 	var err error
-	obs.Panicked, obs.Panic = recoverTo(func() { cfg, err = client.TLSClientAuth(opts) })
+	shared := false
+	obs.Panicked, obs.Panic = recoverTo(func() {
+		if in.Via == 0 {
+			cfg, err = client.TLSClientAuth(opts)
+			return
+		}
+		var rt http.RoundTripper
+		if in.Via == 1 {
+			rt, err = client.TLSTransport(opts)
+		} else {
+			var hc *http.Client
+			hc, err = client.TLSClient(opts)
+			if err == nil && hc == nil {
+				err = fmt.Errorf("c18: nil client without error")
+			}
+			if err == nil {
+				rt = hc.Transport // nil: net/http uses http.DefaultTransport
+				if rt == nil {
+					rt = http.DefaultTransport
+				}
+			}
+		}
+		if err != nil {
+			return
+		}
+		shared = rt == http.DefaultTransport
+		t, ok := rt.(*http.Transport)
+		switch {
+		case !ok || t == nil:
+			err = fmt.Errorf("c18: the round tripper is a %T, its TLS configuration cannot be read", rt)
+		case t.TLSClientConfig == nil:
+			cfg = &tls.Config{} // what net/http handshakes with when the transport has no configuration
+		default:
+			cfg = t.TLSClientConfig
+		}
+	})
 	switch {
 	case obs.Panicked:
 		cfg = nil
@@ -1196,7 +1255,7 @@ func (m *c18Mat) runStep(in c18In, hp *c18HistPaths) (c18Obs, *tls.Config) {
 	if obs.Err != "" {
 		obs.RestZero = true
 	}
-	if obs.Panicked {
+	if obs.Panicked || shared { // the process-wide transport handed out: anybody's later change of it changes this caller's TLS settings
 		obs.RestZero = false
 	}
 	return obs, cfg
@@ -1369,5 +1428,6 @@ func (c18) Category(inAny any, obsAny any) (string, bool) {
 		name = "/name-unusual"
 	}
 	nontrivial := in != c18In{}
-	return id + "/" + ca + "/" + out + name, nontrivial
+	via := [...]string{"", "via-transport/", "via-client/"}[in.Via]
+	return via + id + "/" + ca + "/" + out + name, nontrivial
 }
